@@ -26,6 +26,8 @@ CHECKS={
         "sequentially consistent interleavings at hook granularity (weak-memory outcomes of the Relaxed accesses are not modelled); native code is preempted only at hooked helpers and where it re-enters the dispatch loop; the marker pool runs unscheduled while all script threads are stopped or wait for the token","DESIGN.md §5 C15/C16"),
  'C16':("exploration","same simulated runs as C15, biased towards blocking (channels, joins, mutexes, blocking calls through map): the scheduler turns every blocking call into a polled wait, so a state in which every live thread waits and stays waiting over repeated confirmation rounds is reported as a deadlock with the blocked sites and which of the blocked threads were not published; a step budget bounds livelock; join results, per-sender channel order and mutex-protected counters are compared with the generator's model",
         "programs are deadlock-free at script level by construction (matching send/receive counts, acyclic joins), so every deadlock is the runtime's; same scheduling assumptions as C15","DESIGN.md §5 C15/C16"),
+ 'C17':("fault_enumeration","enumeration of interrupt arrival points: 25 non-terminating program shapes (tail and non-tail loops, primitive-only and allocating loops, loops inside map/transduce/for-each/foldl/apply/sort callbacks, in and under handlers, in every dynamic-wind thunk, a continuation generator, while/struct/hash/string loops) x both tiers x the interrupt request raised at every dispatch step of a 240-step window (further windows in the thorough tier); oracle: the evaluation returns an error within 1000 further dispatch steps, then resume(), empty stacks, a correct probe evaluation, and a second interrupt works; a run that does not return in real time is a violation",
+        "the request is the public ThreadStateController::interrupt raised from the dispatch hook; native code that never re-enters the dispatch loop would only be caught by the real-time watchdog; the timer thread of run_with_timeout is not simulated","DESIGN.md §5 C17"),
  'C04':("exploration","seeded search over collection schedules (a full collection forced at PRNG-chosen allocations, up to every allocation, plus explicit requests) for generated programs that park the only reference to boxes / mutable vectors / mutable struct fields / assigned captured variables in one of 23 root classes, churn the allocator and read back; oracle = generator-known contents + stale-slot monitor + free-slot accounting; JIT on/off and heap growth chunk are swarm dimensions",
         "collections are forced only where the runtime itself may collect; one script thread (threaded roots are exercised in the C15/C16 runs); the marker pool's internal races are not scheduled","DESIGN.md §5 C04"),
 }
